@@ -259,7 +259,7 @@ def o6(W, ob):
                  'the prune bound is derived from the newest received frame', 'the prune bound does not use last_recv_frame', where(clo))
 
 
-from . import helpers, wiring
+from . import helpers, wiring, c02
 
 from . import initial
 
@@ -280,5 +280,6 @@ OBLIGATIONS = [
     ('C05.O6', 'prune window covers the ack', 'the recv_inputs prune keeps the newest received frame for every window size.', o6),
     ('C05.H', 'helpers the rules above rely on', 'the bodies of the helpers named by this property\'s rules compute what the rules assume (last_recv_frame, protocol_state_tests); see rules/helpers.py', helpers.bundle('last_recv_frame', 'protocol_state_tests')),
     ('C05.W', 'configuration wiring', 'at every call site that passes a field read `x.B` for a parameter `A` the callee has no same-typed parameter `B`; in every struct literal no parameter `B` is stored in field `A` while a same-typed parameter `A` / field `B` exists (builder -> constructor -> endpoint fields: timeouts, window, fps are not crossed); see rules/wiring.py', wiring.rule),
+    ('C05.O7', 'a spectator catching up after an outage consumes one frame per fetched frame (= C02.O8)', 'host->spectator links are part of this property: after a burst the spectator catches up several frames per call; each AdvanceFrame it emits carries the inputs of the next frame and the frame counter moves by exactly one per fetched frame, after the fetch succeeded. See C02.O8 / C01.O3.', c02.o8),
     ('C05.I', 'initial state', 'every constructor gives the fields this property\'s rules interpret (NULL_FRAME = none / nothing yet, 0 = first frame, latches open, typestate start) the value listed in tables/initial_state.json; every field compared with NULL_FRAME anywhere is listed; see rules/initial.py', initial.rule_for('C05')),
 ]
